@@ -21,7 +21,8 @@ STRATS = {
 TASK_STRATS = {"T1": ("A1", "SA", "b1", "c1"), "T2": ("A2", "MX", "b1", "c1"),
                "T3": ("A1", "MX", "b1", "b2")}
 WORKERS = {"W1": [("CPU", "a", 1), ("CPU", "b", 1), ("GPU", "g", 1)],
-           "W2": [("CPU", "c", 2)]}
+           # the same (name, id) key as on W1: pool-level sums must add, not overwrite
+           "W2": [("CPU", "a", 2)]}
 LOAD = {("GPU", "any"): 1}
 LOAD_RT = 2
 
@@ -197,6 +198,20 @@ def check_against_reference(world, target, ref, bad, hist):
         if avail != exp:
             bad("profile.state", f"{wn}: profile (available,pending,time)={avail}, "
                                  f"reference {exp}")
+    # the pool's aggregated view (WorkerPool.resources) is the sum of its workers'
+    pool_res = world.pools[target].resources
+    for n in sorted(set(n for wn in WORKERS for n, _i, _q in WORKERS[wn])):
+        x = world.Resource(n, "any")
+        sums = [0, 0, 0]
+        for w in world.pools[target].workers:
+            sums[0] += w.resources.get_available_quantity(x)
+            sums[1] += w.resources.get_allocated_quantity(x)
+            sums[2] += w.resources.get_total_quantity(x)
+        got = [pool_res.get_available_quantity(x), pool_res.get_allocated_quantity(x),
+               pool_res.get_total_quantity(x)]
+        if got != sums:
+            bad("pool.aggregate", f"WorkerPool.resources reports {n} (available, "
+                                  f"allocated, total)={got}, its workers sum to {sums}")
     exp_pool = tuple(sorted(ref.resident))
     if g[-2] != exp_pool:
         bad("placed.pool_mismatch", f"pool get_placed_tasks {g[-2]}, reference "
@@ -856,6 +871,8 @@ def resources_job(item, tier):
         # the order of its entries is an input dimension)
         "m21": {("CPU", "any"): 2, ("GPU", "any"): 1},
         "m12": {("GPU", "any"): 1, ("CPU", "any"): 2},
+        # an entry of quantity zero next to a real one (legal in workload files)
+        "z0": {("CPU", "any"): 1, ("GPU", "any"): 0},
         "ax": {("CPU", "a"): 1, ("GPU", "any"): 1},
         # one specific id *and* an 'any' unit of the same type in one request
         "am": {("CPU", "any"): 1, ("CPU", "a"): 1},
@@ -926,9 +943,10 @@ def resources_job(item, tier):
             if exc is None:
                 if not fit:
                     bad("res.accepted_unfit", f"{op}: accepted above availability")
+                ref.setdefault(c, {})
                 for (n, _i), q in dem.items():
-                    ref.setdefault(c, {})
-                    ref[c][n] = ref[c].get(n, 0) + q
+                    if q:  # a zero-quantity entry takes nothing and leaves no record
+                        ref[c][n] = ref[c].get(n, 0) + q
             else:
                 if fit:
                     bad("res.refused_fit", f"{op}: refused although available")
